@@ -593,3 +593,30 @@ V("c29-twin-guard-inlined", "C29", "-", "dask_array/io/_from_array.py",
   "        if is_ndarray:\n            if region_shape == source.shape:", "        if type(source) in (np.ndarray, np.ma.core.MaskedArray) and region_nbytes >= 0:\n            if region_shape == source.shape:", twin=True)
 V("c29-twin-meta-attr-reads", "C29", "-", "dask_array/io/_from_array.py",
   "        raw_storage_chunks = _source_storage_chunks(self.array)\n", "        raw_storage_chunks = _source_storage_chunks(self.array)\n        ndim_hint = getattr(self.array, \"ndim\", len(self.array.shape))\n", twin=True)
+
+# ---------------------------------------------------------------------------- R06.7 / R06.8 / R21.7 / R25.4
+V("c06-rewrite-keeps-user-name", "C06", "R06.7", "dask_array/creation/_ones_zeros.py",
+  "                \"shape\": shuffle_expr.shape,\n                \"chunks\": shuffle_expr.chunks,\n                \"name\": None,\n", "                \"shape\": shuffle_expr.shape,\n                \"chunks\": shuffle_expr.chunks,\n", expect="BroadcastTrick._accept_shuffle")
+V("c06-slice-rewrite-keeps-user-name", "C06", "R06.7", "dask_array/creation/_ones_zeros.py",
+  "                \"shape\": slice_expr.shape,\n                \"chunks\": slice_expr.chunks,\n                \"name\": None,\n", "                \"shape\": slice_expr.shape,\n                \"chunks\": slice_expr.chunks,\n", expect="BroadcastTrick._accept_slice")
+V("c06-taker-key-narrow", "C06", "R06.8", "dask_array/_shuffle.py",
+  "                        taker_key = taker_name + tokenize(this_slice)", "                        taker_key = taker_name + tokenize(axis, this_slice[axis])", expect="Shuffle._layer")
+V("c06-sorter-key-by-length", "C06", "R06.8", "dask_array/_shuffle.py",
+  "            sorter_key = sorter_name + tokenize(sorter)", "            sorter_key = sorter_name + tokenize(len(sorter), axis)", expect="Shuffle._layer")
+V("c06-twin-taker-key-local", "C06", "-", "dask_array/_shuffle.py",
+  "                        taker_key = taker_name + tokenize(this_slice)", "                        payload_token = tokenize(this_slice)\n                        taker_key = taker_name + payload_token", twin=True)
+V("c21-fused-deps-deduped", "C21", "R21.7", "dask_array/_frisky/fused_blockwise.py",
+  "            dep_keys = [self._dep_key(dep_names, slot) for slot in slots]\n            refs = [TaskRef(dep_key) for dep_key in dep_keys]",
+  "            dep_keys = list(dict.fromkeys(self._dep_key(dep_names, slot) for slot in slots))\n            refs = [TaskRef(dep_key) for dep_key in dep_keys]", expect="_fast_records")
+V("c21-fused-refs-filtered", "C21", "R21.7", "dask_array/_frisky/fused_blockwise.py",
+  "            refs = [TaskRef(dep_key) for dep_key in dep_keys]", "            refs = [TaskRef(dep_key) for dep_key in dep_keys if dep_key]", expect="_fast_records")
+V("c21-twin-refs-generator", "C21", "-", "dask_array/_frisky/fused_blockwise.py",
+  "            refs = [TaskRef(dep_key) for dep_key in dep_keys]\n            args = tuple(refs) + seeds", "            args = tuple(TaskRef(dep_key) for dep_key in dep_keys) + seeds", twin=True)
+V("c25-process-pool-is-local", "C25", "R25.4", "dask_array/io/_store.py",
+  "_LOCAL_SCHEDULERS = frozenset({\"sync\", \"synchronous\", \"single-threaded\", \"threads\", \"threading\"})", "_LOCAL_SCHEDULERS = frozenset({\"sync\", \"synchronous\", \"single-threaded\", \"threads\", \"threading\", \"processes\"})", expect="_nonlocal_scheduler_active")
+V("c25-named-schedulers", "C25", "R25.4", "dask_array/io/_store.py",
+  "        return active not in _LOCAL_SCHEDULERS", "        from dask.base import named_schedulers\n\n        return active not in named_schedulers", expect="_nonlocal_scheduler_active")
+V("c25-twin-local-set-renamed", "C25", "-", "dask_array/io/_store.py", None, None, twin=True, edits=[
+  ("dask_array/io/_store.py", "_LOCAL_SCHEDULERS = frozenset(", "_IN_PROCESS = frozenset("),
+  ("dask_array/io/_store.py", "        return active not in _LOCAL_SCHEDULERS", "        return active not in _IN_PROCESS"),
+])
